@@ -27,10 +27,10 @@ namespace
     typedef Rec<f64, u8> RDbl;
     typedef Rec<i64> RI;
 
-    typedef TL<i8, i16, i32, i64, u8, u16, u32, u64, f32, f64> L0;
-    typedef Cat<VecOf<L0>::type, TL<RPad, RDbl, RI>>::type L1a;
+    typedef TL<i8, i16, i32, i64, u8, u16, u32, u64, f32, f64, ld> L0;
+    typedef Cat<VecOf<L0>::type, TL<RPad, RDbl, RI, Rec<ld, u8>, DefaultedN>>::type L1a;
     typedef Cat<L1a, TL<Plain>>::type L1;
-    typedef TL<Rec<std::vector<u16>, u8>, Rec<RPad, u8>, Rec<std::vector<u8>, std::vector<f64>>, Rec<RDbl, RI>, Rec<Plain, i8>> L2r;
+    typedef TL<Rec<std::vector<u16>, u8>, Rec<RPad, u8>, Rec<std::vector<u8>, std::vector<f64>>, Rec<RDbl, RI>, Rec<Plain, i8>, Rec<DefaultedN, u8>, Rec<u8, ld, u16>> L2r;
     typedef Cat<VecOf<L1>::type, L2r>::type L2;
     typedef TL<Rec<std::vector<RPad>, u8>, Rec<std::vector<std::vector<u16>>>, Rec<Rec<std::vector<u16>, u8>, i8>,
                Rec<std::vector<Plain>, std::vector<std::vector<i8>>>, Rec<Rec<RDbl, RI>, std::vector<RI>>>
@@ -76,17 +76,17 @@ namespace
     }
 
     template <class T>
-    void check_value(const T &v, const T &w, const std::string &tn, const std::string &cls, const char *what, int chunk, int nchunks)
+    void check_value(const T &v, const T &w, const std::vector<T> &receivers, const std::string &tn, const std::string &cls, const char *what, int chunk, int nchunks)
     {
-        std::string ref;
-        ref_enc(ref, v);
+        std::string ref, mask;
+        ref_enc(ref, v, &mask);
         mc::crash_context("C09.new.serialize.%s", cls.c_str());
         std::string enc = igris::serialize(v);
         mc::outcome(mc::fmt("%s/len%zu", tn.c_str(), enc.size()));
         bool threw = false;
         if (chunk == 0)
         {
-            bool layout_ok = enc == ref;
+            bool layout_ok = same_layout(enc, ref, mask);
             if (!layout_ok)
                 mc::violation("C09.new.layout." + cls,
                               "%s %s: serialize() gives %zu bytes %s, the stated layout (native scalars, u16 count + elements) gives %zu bytes %s",
@@ -127,7 +127,9 @@ namespace
                     igris::string_storage both;
                     igris::serialize(v, both);
                     igris::serialize(w, both);
-                    if (both.storage() != cat)
+                    std::string cref = ref, cmask = mask;
+                    ref_enc(cref, w, &cmask);
+                    if (both.storage().size() != cat.size() || !same_layout(both.storage(), cat, cmask.size() == cat.size() ? cmask : std::string(cat.size(), '1')))
                         mc::violation("C09.new.concat_write." + cls, "%s %s: serialize(a,storage); serialize(b,storage) gives %zu bytes, enc(a)||enc(b) is %zu",
                                       tn.c_str(), what, both.storage().size(), cat.size());
                 }
@@ -142,6 +144,33 @@ namespace
                     mc::violation("C09.new.concat." + cls, "%s %s: decode(enc(a)||enc(b)): first %s, second %s, left after first %d (want %zu), at end %d",
                                   tn.c_str(), what, eq(a, v) ? "ok" : "WRONG", eq(b, w) ? "ok" : "WRONG", mid, cat.size() - enc.size(), left);
             }
+        }
+        if (chunk == 0)
+        {
+            // decode in place (deserializer::deserialize(T&)) into an object that already holds a DIFFERENT value:
+            // the result is v, nothing of the old content survives (containers are replaced, not appended to)
+            Exact e(enc.data(), enc.size());
+            for (const T &old : receivers)
+            {
+                T r = old;
+                keep(&r);
+                igris::deserialize_buffer_storage storage(igris::buffer(e.p, e.n));
+                igris::deserializer<igris::deserialize_buffer_storage> ar(storage);
+                mc::crash_context("C09.new.decode_inplace.%s", cls.c_str());
+                ar.deserialize(r);
+                keep(&r);
+                if (!eq(r, v) || storage.avail() != 0)
+                {
+                    std::string oref;
+                    ref_enc(oref, old);
+                    mc::violation("C09.new.inplace." + cls, "%s %s: decoding %s (%zu bytes) into an object holding the value %s (%zu bytes): result %s, %d bytes left",
+                                  tn.c_str(), what, hexs(enc, 32).c_str(), enc.size(), hexs(oref, 32).c_str(), oref.size(),
+                                  eq(r, v) ? "ok" : "is NOT the encoded value", storage.avail());
+                    break;
+                }
+            }
+            mc::more_cases(receivers.size(), receivers.size());
+            mc::count("inplace_decodes", (long)receivers.size());
         }
         // every truncation point, exactly-sized copy, bounded storage reader
         std::vector<size_t> pts;
@@ -176,7 +205,10 @@ namespace
                          ref.size());
             if (!is_scalar_v<T> && ref.size() > 2)
                 mc::nontrivial();
-            check_value(v, w, tn, cls, mc::fmt("value #%ld", i).c_str(), 0, 1);
+            std::vector<T> receivers;
+            for (long j : receiver_indices(i, n))
+                receivers.push_back(make<T>(0, j));
+            check_value(v, w, receivers, tn, cls, mc::fmt("value #%ld", i).c_str(), 0, 1);
         }
     };
 
@@ -190,7 +222,10 @@ namespace
         mc::describe("new %s with %d elements (%zu payload bytes), truncation points = %d mod %d", tn.c_str(), N, (size_t)N * sizeof(T), chunk,
                      nchunks);
         mc::nontrivial();
-        check_value(v, w, tn, (size_t)N * sizeof(T) > 65535 ? std::string("vector_of_arithmetic.image_over_65535_bytes")
+        std::vector<std::vector<T>> receivers;
+        if (chunk == 0)
+            receivers = {w, std::vector<T>(N < 65535 ? N + 1 : N, scalar_value<T>(1))};
+        check_value(v, w, receivers, tn, (size_t)N * sizeof(T) > 65535 ? std::string("vector_of_arithmetic.image_over_65535_bytes")
                                                              : std::string("vector_of_arithmetic"),
                     mc::fmt("%d elements", N).c_str(), chunk, nchunks);
     }
@@ -210,7 +245,11 @@ namespace
         mc::crash_context("C09.new.golden");
         std::string enc = igris::serialize(v);
         mc::outcome(std::string("golden/") + name);
-        if (enc != bytes)
+        std::string ref, mask;
+        ref_enc(ref, v, &mask); // only for the positions of padding bytes inside scalar images
+        if (mask.size() != bytes.size())
+            mask.assign(bytes.size(), '1');
+        if (!same_layout(enc, bytes, mask))
             mc::violation("C09.new.golden.encode", "%s: serialize gives %s, recorded %s", name, hexs(enc, 64).c_str(), hexs(bytes, 64).c_str());
         Exact e(bytes.data(), bytes.size());
         T r{};
@@ -288,6 +327,7 @@ MC_INIT
     add_big<u64, 8192>(64);
     add_big<u16, 65535>(32); // 131072 bytes: sampled truncation points (see config.json)
     add_big<u64, 65535>(32);
+    add_big<ld, 4096>(64); // 65536 bytes of 16-byte images
 
     mc::add_check("new.storage_reader", storage_reader_case);
     goldens().push_back({"i32", [] { golden<i32>("i32 0x01020304", 0x01020304, B("\x04\x03\x02\x01")); }});
@@ -298,6 +338,17 @@ MC_INIT
     goldens().push_back({"vector<u32>{31,32,33,34}", [] {
                              golden<std::vector<u32>>("vector<u32>{31,32,33,34}", {31, 32, 33, 34},
                                                       B("\x04\x00\x1f\x00\x00\x00\x20\x00\x00\x00\x21\x00\x00\x00\x22\x00\x00\x00"));
+                         }});
+    goldens().push_back({"long double 1.0", [] {
+                             golden<ld>("long double 1.0 (6 padding bytes not compared)", 1.0L,
+                                        B("\x00\x00\x00\x00\x00\x00\x00\x80\xff\x3f\x00\x00\x00\x00\x00\x00"));
+                         }});
+    goldens().push_back({"Defaulted", [] {
+                             DefaultedN d;
+                             d.v = {9};
+                             d.x = 1;
+                             d.vv = {};
+                             golden<DefaultedN>("Defaulted{{9},1,{}}", d, B("\x01\x00\x09\x00\x01\x00\x00\x00\x00\x00"));
                          }});
     goldens().push_back({"vector<u8>{}", [] { golden<std::vector<u8>>("vector<u8>{}", {}, B("\x00\x00")); }});
     goldens().push_back({"vector<vector<u16>>", [] {
